@@ -131,11 +131,21 @@ def add_entry(L, rng, workdirs, a, tag, used, kinds=None, spellings=None,
             target = '@/' + tgt_rel
         else:
             target = os.path.relpath('/' + tgt_rel, '/' + d)
+    elif kind == 'link_up':
+        # a link to a directory that CONTAINS the trash directory it will be
+        # put in (its own parent chain, the volume's top, $HOME): moving the
+        # link is still moving a link
+        ups = ['..', '../..', '.']
+        if v:
+            ups.append('@/' + v)
+        if L.home:
+            ups.append('@/' + L.home)
+        target = rng.choice(ups)
     elif kind == 'link_dangling':
         target = rng.choice(['nowhere-' + tag, '/nonexistent/' + tag,
                              '../gone/' + tag, name])
     L.add(gen.entry_nodes(rng, rel, kind, tag, target))
-    isdirlike = kind in ('tree', 'dir_empty', 'link_dir', 'tree_fifo')
+    isdirlike = kind in ('tree', 'dir_empty', 'link_dir', 'tree_fifo', 'link_up')
     sp = rng.choice(spellings or SPELLINGS)
     if sp in ('trail1', 'trail2', 'abs_trail', 'trail3') and not isdirlike \
             and rng.random() < 0.7:
